@@ -228,7 +228,11 @@ def split_delay_tags(series, hed_schema, onsets):
         duration_tags = delay_string.find_top_level_tags({DefTagNames.DELAY_KEY})
         to_remove = []
         for tag, group in duration_tags:
-            onset_mod = tag.value_as_default_unit() + float(onsets[i])
+            delay = tag.value_as_default_unit()
+            if delay is None:
+                # The delay cannot be converted to default units (e.g. its unit has no conversion factor): leave in place
+                continue
+            onset_mod = delay + float(onsets[i])
             to_remove.append(group)
             insert_index = split_df['original_index'].index.max() + 1
             split_df.loc[insert_index] = {'HED': str(group), 'onset': onset_mod, 'original_index': i}
